@@ -30,6 +30,8 @@ else
   $CC $LANGF $COMMON $TS $DEFS $INC -c $REPO/platform/posix/src/time_rep.c -o $OUT/time_rep.o & pids+=($!)
 fi
 $CC $LANGF $COMMON $TS $DEFS $INC $SEMREN -c $REPO/platform/linux/src/nsync_semaphore_futex.c -o $OUT/sem_futex.o & pids+=($!)
+# the real per-thread-waiter file; its pthread_key_* / sched_yield calls are redirected in sim/platform/platform.h
+$CC $LANGF $COMMON $TS $DEFS $INC -c $REPO/platform/posix/src/per_thread_waiter.c -o $OUT/per_thread_waiter.o & pids+=($!)
 $CC $LANGF $COMMON $TS $DEFS $INC -c $V/sim/platform/src/sim_platform.c -o $OUT/sim_platform.o & pids+=($!)
 $CC $LANGF $COMMON $DEFS $INC -c $V/sim/platform/src/sim_peek.c -o $OUT/sim_peek.o & pids+=($!)
 # the interpreter: NOT tsan-instrumented
